@@ -18,6 +18,7 @@ import (
 
 	"github.com/dave/dst"
 	"github.com/dave/dst/decorator"
+	"github.com/dave/dst/decorator/resolver/guess"
 	"github.com/dave/dst/decorator/resolver/simple"
 )
 
@@ -389,6 +390,7 @@ func checkC07(c *Ctx) {
 		}
 	}
 	items = append(items, c07Positions(c)...)
+	c07CaseVariants(c)
 	c.Traces(int64(len(items)))
 	tcfg := importsConsts(false, true) + "INIT TInit\nNEXT TNext\nINVARIANTS EachOnce Exact Bound LocalsBare Distinct Precedence NoOpKept Conforms\nPOSTCONDITION Accepted\nCHECK_DEADLOCK FALSE\n"
 	validateTracesF(c, "ImportsTraceMC", tcfg, map[string][]byte{"ImportsTraceMC.tla": []byte(importsTraceMC)}, items, 3000, false, func(it traceItem, res *TLCResult) {
@@ -579,5 +581,73 @@ func init() {
 			return "a reference to a/x placed at " + where + " is printed without its import or qualifier:\n" + out
 		}
 		return ""
+	}
+}
+
+// c07CaseVariants: import paths that differ only in the case of their letters (all naming the same
+// package name): names stay pairwise distinct, every reference is bound to the import of its own path,
+// and repeated restores give identical bytes.
+func c07CaseVariants(c *Ctx) {
+	sets := [][]string{
+		{"github.com/Sirupsen/logrus", "github.com/sirupsen/logrus"},
+		{"example.com/x/Log", "example.com/x/log", "example.com/X/log"},
+		{"a.b/Pkg", "a.b/pkg", "fmt"},
+	}
+	for si, paths := range sets {
+		key := fmt.Sprintf("case-variants|%v", paths)
+		c.Eval(key, true)
+		first := ""
+		for rep := 0; rep < 24; rep++ {
+			f, err := decorator.Parse("package p\n\nvar _ = 1\n")
+			if err != nil {
+				c.Infra(err.Error())
+				return
+			}
+			for i, p := range paths {
+				f.Decls = append(f.Decls, &dst.GenDecl{Tok: token.VAR, Specs: []dst.Spec{&dst.ValueSpec{Names: []*dst.Ident{dst.NewIdent("_")}, Values: []dst.Expr{&dst.Ident{Name: fmt.Sprintf("V%d", i), Path: p}}}}})
+			}
+			var buf bytes.Buffer
+			var perr error
+			if msg := guard(func() { perr = decorator.NewRestorerWithImports("main", guess.New()).Fprint(&buf, f) }); msg != "" || perr != nil {
+				c.Fail(Finding{Sig: "import-restore-fails", Input: key, What: fmt.Sprintf("%s %v", msg, perr), Replay: obj{"kind": "none"}})
+				return
+			}
+			out := buf.String()
+			if rep == 0 {
+				first = out
+				// names distinct, references bound
+				af, err := parser.ParseFile(token.NewFileSet(), "", out, 0)
+				if err != nil {
+					c.Fail(Finding{Sig: "import-restore-fails", Input: key, What: "output does not parse: " + out, Replay: obj{"kind": "none"}})
+					return
+				}
+				nameOf := map[string]string{}
+				seen := map[string]string{}
+				for _, is := range af.Imports {
+					ip, _ := strconv.Unquote(is.Path.Value)
+					n := ""
+					if is.Name != nil {
+						n = is.Name.Name
+					} else {
+						n, _ = guess.New().ResolvePackage(ip)
+					}
+					if other, dup := seen[n]; dup {
+						c.Fail(Finding{Sig: "imports-Distinct", Input: key, What: fmt.Sprintf("imports %s and %s are both bound to the name %s:\n%s", other, ip, n, out), Replay: obj{"kind": "none"}})
+						return
+					}
+					seen[n] = ip
+					nameOf[ip] = n
+				}
+				for i, p := range paths {
+					if !strings.Contains(out, fmt.Sprintf("%s.V%d", nameOf[p], i)) {
+						c.Fail(Finding{Sig: "imports-Bound", Input: key, What: fmt.Sprintf("the reference V%d to %s is not a selector on its import (%q):\n%s", i, p, nameOf[p], out), Replay: obj{"kind": "none"}})
+						return
+					}
+				}
+			} else if out != first {
+				c.Fail(Finding{Sig: "imports-nondeterministic", Input: key, What: fmt.Sprintf("set %d restored twice gives different results:\n%s\nvs\n%s", si, first, out), Replay: obj{"kind": "none"}})
+				return
+			}
+		}
 	}
 }
